@@ -48,3 +48,75 @@ Proof. exact ProofsC.t_mismatch_skipped. Qed.
    the previous value kept, decoding continues with what follows (true since the fix of decodeFuncSliceOf) *)
 Theorem t_mismatch_list : t_mismatch_list_statement.
 Proof. exact ProofsC.t_mismatch_list. Qed.
+
+(* ---------------------------------------------------------------------------------------------------------------
+   Further theorems (statements Thrift/SpecD.v, proofs Thrift/ProofsD*.v): collections of another item type (sets and
+   maps, also inside a struct), unknown fields at ANY nesting depth through the relation widens, truncation and trailing
+   bytes of alternative and of widened encodings, sizes read from the wire (negative and oversized counts).
+   --------------------------------------------------------------------------------------------------------------- *)
+From Verif Require Import Thrift.SpecD.
+From Verif Require Thrift.ProofsD.
+
+
+(* the wire format of a set is that of a list *)
+Theorem t_set_wire_is_list : t_set_wire_is_list_statement. Proof. exact ProofsD.t_set_wire_is_list. Qed.
+(* a declared set whose wire items are of another type (any supported item type, at least one item): TypeMismatch in strict mode, otherwise all items skipped, empty set, decoding continues; both protocols *)
+Theorem t_mismatch_set_items : t_mismatch_set_items_statement. Proof. exact ProofsD.t_mismatch_set_items. Qed.
+(* the instance where the bytes are Marshal's for a set of another key type *)
+Theorem t_mismatch_set : t_mismatch_set_statement. Proof. exact ProofsD.t_mismatch_set. Qed.
+(* an empty set is accepted before the item type is checked, even in strict mode *)
+Theorem t_mismatch_set_empty : t_mismatch_set_empty_statement. Proof. exact ProofsD.t_mismatch_set_empty. Qed.
+(* in contrast an empty list of another item type is a TypeMismatch in strict mode and keeps the previous value otherwise *)
+Theorem t_mismatch_list_empty : t_mismatch_list_empty_statement. Proof. exact ProofsD.t_mismatch_list_empty. Qed.
+(* a declared map whose wire key or value type differs (at least one entry): TypeMismatch in strict mode, otherwise all entries skipped, empty map; both protocols *)
+Theorem t_mismatch_map : t_mismatch_map_statement. Proof. exact ProofsD.t_mismatch_map. Qed.
+(* an empty map is accepted before the types are checked, even in strict mode *)
+Theorem t_mismatch_map_empty : t_mismatch_map_empty_statement. Proof. exact ProofsD.t_mismatch_map_empty. Qed.
+
+(* unknown fields at ANY nesting depth (through struct fields, list items, map values, pointers; relation widens): Unmarshal of the wide encoding into the narrow type gives, up to tnorm, what the narrow encoding gives; both protocols *)
+Theorem t_unknown_nested : t_unknown_nested_statement. Proof. exact ProofsD.t_unknown_nested. Qed.
+(* the same for EVERY conformant encoding (any long / short header forms) of the wide pair: generalises t_alt_accept and t_unknown_fields *)
+Theorem t_widen_accept : t_widen_accept_statement. Proof. exact ProofsD.t_widen_accept. Qed.
+
+(* every proper prefix of every conformant encoding (any header forms) of a wide pair: io.EOF when empty, unexpected-EOF class otherwise *)
+Theorem t_widen_alt_prefix_eof : t_widen_alt_prefix_eof_statement. Proof. exact ProofsD.t_widen_alt_prefix_eof. Qed.
+(* instance: every proper prefix of every ALTERNATIVE compact encoding of a value *)
+Theorem t_alt_prefix_eof : t_alt_prefix_eof_statement. Proof. exact ProofsD.t_alt_prefix_eof. Qed.
+(* instance: every proper prefix of the bytes Marshal writes for a WIDENED pair, both protocols *)
+Theorem t_widen_prefix_eof : t_widen_prefix_eof_statement. Proof. exact ProofsD.t_widen_prefix_eof. Qed.
+(* trailing bytes after any conformant encoding of a wide pair are reported *)
+Theorem t_widen_alt_trailing : t_widen_alt_trailing_statement. Proof. exact ProofsD.t_widen_alt_trailing. Qed.
+
+(* a declared collection FIELD (list, set or map, any position in the struct) whose wire item / key / value type differs, non-strict mode: the collection is consumed entirely, the field left empty, every other field decoded as usual, no MissingField; both protocols *)
+Theorem t_mismatch_coll_field_skipped : t_mismatch_coll_field_skipped_statement. Proof. exact ProofsD.t_mismatch_coll_field_skipped. Qed.
+(* ... every proper prefix of such bytes is an EOF-class error *)
+Theorem t_mismatch_coll_field_prefix : t_mismatch_coll_field_prefix_statement. Proof. exact ProofsD.t_mismatch_coll_field_prefix. Qed.
+(* ... strict mode: TypeMismatch whenever the field is on the wire (sets and maps: with at least one entry) *)
+Theorem t_mismatch_coll_field_strict : t_mismatch_coll_field_strict_statement. Proof. exact ProofsD.t_mismatch_coll_field_strict. Qed.
+
+(* ---- sizes read from the wire ---- *)
+(* EVERY size a list / set / map header reader returns is non-negative, both protocols, any well-formed bytes: no accepted input has a negative announced count (true since the repair of binary.go ReadList / ReadMap, found by this development) *)
+Theorem t_header_size_nonneg : t_header_size_nonneg_statement. Proof. exact ProofsD.t_header_size_nonneg. Qed.
+(* binary protocol: a complete list / set / map header whose size has the sign bit set is refused by the reader *)
+Theorem t_negative_header : t_negative_header_statement. Proof. exact ProofsD.t_negative_header. Qed.
+(* ... hence by the list decoder, whatever the item type byte, strict or not *)
+Theorem t_negative_list : t_negative_list_statement. Proof. exact ProofsD.t_negative_list. Qed.
+(* ... the set decoder *)
+Theorem t_negative_set : t_negative_set_statement. Proof. exact ProofsD.t_negative_set. Qed.
+(* ... the map decoder *)
+Theorem t_negative_map : t_negative_map_statement. Proof. exact ProofsD.t_negative_map. Qed.
+(* ... and when a list, set or map is skipped (unknown fields, items of skipped collections) *)
+Theorem t_negative_skip_rejected : t_negative_skip_rejected_statement. Proof. exact ProofsD.t_negative_skip_rejected. Qed.
+(* string / binary lengths above 2^31 - 1 are refused, both protocols *)
+Theorem t_negative_length : t_negative_length_statement. Proof. exact ProofsD.t_negative_length. Qed.
+(* compact protocol: a list / set size above 2^31 - 1 is refused when the header is read *)
+Theorem t_compact_huge_list : t_compact_huge_list_statement. Proof. exact ProofsD.t_compact_huge_list. Qed.
+(* a count larger than the number of bytes after the header makes the list decoder fail, whatever the bytes; both protocols, strict or not *)
+Theorem t_oversized_list : t_oversized_list_statement. Proof. exact ProofsD.t_oversized_list. Qed.
+(* the same for sets *)
+Theorem t_oversized_set : t_oversized_set_statement. Proof. exact ProofsD.t_oversized_set. Qed.
+(* the same for maps *)
+Theorem t_oversized_map : t_oversized_map_statement. Proof. exact ProofsD.t_oversized_map. Qed.
+
+(* unknown fields at any depth through Decoder.Decode in strict or non-strict mode, any header forms: accepted with the narrow value up to tnorm, and every proper prefix is an EOF-class error *)
+Theorem t_widen_decode : t_widen_decode_statement. Proof. exact ProofsD.t_widen_decode. Qed.
